@@ -504,6 +504,10 @@ func RunUserTok(tw *TraceWriter, rng *rand.Rand, tier string) (M, error) {
 			if !deflate {
 				hdr = `{"alg":"dir","cty":"JWT","enc":"A128CBC-HS256"}`
 			}
+			if strings.HasSuffix(kind, "-nocty") {
+				// the content-type header is advisory: what is inside (a signed token or bare claims) decides
+				hdr = strings.Replace(hdr, `"cty":"JWT",`, "", 1)
+			}
 			if signed {
 				mode = "signenc"
 				payload = []byte(forge.JWS(sigAlg, sigKey, `{"alg":"`+sigAlg+`"}`, payload))
@@ -542,6 +546,9 @@ func RunUserTok(tw *TraceWriter, rng *rand.Rand, tier string) (M, error) {
 			{"forged-good-enc", ge, nil, "", "rdpgw", 300, true, false, true},
 			{"forged-good-signenc", ge, gs, "HS256", "rdpgw", 300, true, true, true},
 			{"forged-nodeflate", ge, gs, "HS256", "rdpgw", 300, true, true, false},
+			{"forged-good-enc-nocty", ge, nil, "", "rdpgw", 300, true, false, true},
+			{"forged-good-enc-nodeflate-nocty", ge, nil, "", "rdpgw", 300, true, false, false},
+			{"forged-good-signenc-nocty", ge, gs, "HS256", "rdpgw", 300, true, true, true},
 			{"expired", ge, gs, "HS256", "rdpgw", -600, true, true, true},
 			{"expired-enc", ge, nil, "", "rdpgw", -600, true, false, true},
 			{"expired-in-leeway", ge, gs, "HS256", "rdpgw", -30, true, true, true},
@@ -561,6 +568,9 @@ func RunUserTok(tw *TraceWriter, rng *rand.Rand, tier string) (M, error) {
 		for _, c := range cases {
 			for k := 0; k < reps; k++ {
 				t, rec := mk(c.kind, c.ek, c.sk, c.alg, c.iss, c.exp, c.hasExp, c.sig, c.df)
+				if c.kind == "forged-good-signenc-nocty" {
+					rec["mut"] = "neutral" // a nested token that does not announce itself as one: a verifier may insist on the header
+				}
 				emit(vm, c.kind, "GET", true, t, rec, user)
 			}
 		}
